@@ -7,7 +7,7 @@ from . import common
 
 ID = 'C06'
 LEVEL = 'fault_enumeration'
-BUDGET = {'quick': (300, 80.0), 'thorough': (60000, 1500.0)}
+BUDGET = {'quick': (6000, 80.0), 'thorough': (150000, 1500.0)}
 CHUNK = 20
 RULE = ('enumeration: for every transfer shape (BAM / RTS-CTS x J1939-21 / -22 x 2,3,5,12 packets x windows 1,2,3,all) a clean run fixes '
         'the F frames of the exchange; then one run per fault point: drop(k) for every k<F, silence(originator,k) and silence(responder,k) '
